@@ -246,7 +246,10 @@ impl MK for SM {
     const UUID: bool = false;
     fn setup(world: &mut World) {
         world.register::<SM>();
-        world.insert(SimpleMarkerAllocator::<Tag>::new());
+        // every world of the process gets a CLONE of one pristine allocator (the pattern of the crate's own test): a clone
+        // that shared state with its origin would make a world's marker ids depend on what other worlds did (C20)
+        thread_local! { static PRISTINE: SimpleMarkerAllocator<Tag> = SimpleMarkerAllocator::<Tag>::new(); }
+        world.insert(PRISTINE.with(|p| p.clone()));
     }
     fn mid(&self, _: &mut Vec<String>) -> u64 {
         self.id()
@@ -271,7 +274,8 @@ impl MK for UuidMarker {
     const UUID: bool = true;
     fn setup(world: &mut World) {
         world.register::<UuidMarker>();
-        world.insert(UuidMarkerAllocator::new());
+        thread_local! { static PRISTINE_U: UuidMarkerAllocator = UuidMarkerAllocator::new(); }
+        world.insert(PRISTINE_U.with(|p| p.clone()));
     }
     fn mid(&self, names: &mut Vec<String>) -> u64 {
         let s = format!("{}", self.uuid());
@@ -1277,8 +1281,10 @@ fn main() {
                 std::process::exit(2);
             }
             let mut master = Rng::new(seed);
-            for c in 0..cases {
-                let sub = master.next();
+            // VH_REVERSE=1: the same cases, executed in reverse order (C20: a case must not depend on the worlds before it)
+            let mut order: Vec<(usize, u64)> = (0..cases).map(|c| (c, master.next())).collect();
+            if std::env::var("VH_REVERSE").map(|v| v == "1").unwrap_or(false) { order.reverse(); }
+            for (c, sub) in order {
                 let mut rng = Rng::new(sub);
                 let rt = match mode { "rt" => true, "hist" => false, _ => rng.chance(2, 5) };
                 writeln!(out, "case g{}-{}", c, sub).unwrap();
